@@ -43,6 +43,9 @@ def ns():
     def bare(*a, **k):
         raise ValueError()          # an exception without arguments
 
+    def both(a, b=()):
+        return (list(a), list(b))
+
     def pick(a):
         return Option("X") if a else Value(0)
 
@@ -117,11 +120,12 @@ RECIPES = {
                  "case(Option('A', 0)).when(lambda a: a == 1, Option('X')).otherwise('small')"],
     "Coalesce": ["coalesce(rec('p', Option('A')), rec('q', Option('B', 1)), rec('r'))", "coalesce(Option('A'), Option('B'))", "coalesce(Option('A') >> pdiv, Option('B', 2))", "coalesce(Option('S.X'), Value(1))"],
     "Iter": ["Iter(Option('A'), Option('B', 2)).apply(list)", "Iter(Option('A')).apply(tuple)"],
-    "EvaluatableArgs": ["EvaluatableArgs(Option('A'), Option('B', 2))"],
+    "EvaluatableArgs": ["EvaluatableArgs(Option('A'), Option('B', 2))", "(lambda it: EvaluatableArgs(it, it).apply(lambda t: [list(x) for x in t]))(Iter(Option('A'), Option('B', 2)))"],
     "EvaluatableKwargs": ["EvaluatableKwargs(a=Option('A'), b=Option('B', 2))"],
     "EvaluatableArguments": ["EvaluatableArguments(Option('A'), b=Option('B', 2))"],
     "FunctionApplication": ["FunctionApplication(pair, Option('A'), b=Option('B', 2))", "FunctionApplication(Option('FN', pair), Option('A'))",
-                            "FunctionApplication(pdiv, Option('A', 1))"],
+                            "FunctionApplication(pdiv, Option('A', 1))", "(lambda it: FunctionApplication(both, it, it))(Iter(Option('A'), Option('B', 2)))",
+                            "(lambda it: FunctionApplication(both, it, b=it))(Iter(Option('A')))"],
     "PartialApplication": ["PartialApplication(pair, b=Option('B', 2)) ", "Option('A') >> PartialApplication(pair, b=Option('B'))"],
     "PipelineStep": ["Option('A') >> F.add(Option('B', 1))"],
     "Pipeline": ["Option('A') >> (F.add(Option('B', 1)) + F.multiply(Option('T', 2)))", "Option('A') >> (Pipeline() + inc)"],
@@ -133,7 +137,8 @@ RECIPES = {
     "Option": ["Option('A', rec('dflt'))","Option('A')", "Option('A', 5)", "Option('S.X', Option('B'))", "Option('A', '{B}')", "Option('A', domain=[1, 2])",
                "Option('A', 1, domain=Option('DOM', [1, 2]))", "Option('L.0')", "Option('A', domain=lambda t: {2: True}[t])",
                "Option('A', 7, domain=lambda t: {2: True, 7: True}[t])"],
-    "Template": ["Template('inputs={S}')", "Template('{L}')", "Template('{A}-{S.X}')", "Template('{A} {:p:}', p=Option('B', 2))", "Template('{:p:}', p=Value('{NOPE}'))", "Template('{:p:}-{A}', p=Value({'x': 1}))", "Template('{:p:}', p=Option('B') >> ident)"],
+    "Template": ["Template('inputs={S}')", "Template('{L}')", "Template('{A}-{S.X}')", "Template('{A} {:p:}', p=Option('B', 2))", "Template('{:p:}', p=Value('{NOPE}'))", "Template('{:p:}-{A}', p=Value({'x': 1}))", "Template('{:p:}', p=Option('B') >> ident)", "Template('{:l:}A{:r:}', l=Value('{'), r=Value('}'))", "Template('{A}', q=Option('B'))", "Template('{B}-{:B:}', B=Option('A'))",
+                 "Template('{A}-{:p:}', p=WithOptions(Option('A'), {'ROOT': 1}))", "Template('{:p:}', p=Value('a\\\\{b'))"],
     "_AllOptions": ["AllOptions"],
     "Dataset": ["ds(Option('A'), Option('AB', 0), Option('A_DECAY', 1))","ds(Option('A'), Option('B', 2))", "ds(Option('A'), options={'B': 1})", "ds(ds(Option('A')), Option('S.X', 0), default_options={'S': {'X': 4}})",
                 "ds(Option('A'), Option('S.B', 0), Option('S.C', 'c-fallback'), default_options={'S': {'B': 2, 'C': 3}, 'T': 5})",
@@ -147,7 +152,7 @@ KEYS = ["A", "B", "T", "X", "Y", "Z", "S", "FN", "DOM", "XS", "L"]
 
 def dict_universe(rnd, n):
     out = [{}, {"A": 1}, {"A": 2, "B": 3}, {"A": 1, "X": 5, "Z": 9}, {"A": 1, "T": 0, "X": 4, "Y": 6, "Z": 7},
-           {"S": {"X": 1, "Y": 2}}, {"A": "{B}", "B": 2}, {"A": "{NOPE}"}, {"A": 0}, {"A": None, "Z": 1}, {"A": 3, "S": {"X": 2}, "B": 1},
+           {"S": {"X": 1, "Y": 2}}, {"A": "{B}", "B": 2}, {"A": "{NOPE}"}, {"A": "{ROOT}/data"}, {"A": "{ROOT}/data", "ROOT": "/r"}, {"A": 0}, {"A": None, "Z": 1}, {"A": 3, "S": {"X": 2}, "B": 1},
            {"A": 1, "S": 5}, {"XS": [1, 2], "B": 1}, {"A": 1, "AB": 2, "A_DECAY": 3}, {"S": {"X": ["{ROOT}/a.csv"]}}, {"L": [{"p": "{ROOT}"}], "A": 1}, {"S": {"X": ["{A}/a.csv"]}, "A": 1}, {"LOGGING": {"LEVEL": 0, "KEEP": 2}, "SERVICE_A": {"LOGGING": {"LEVEL": 5}}, "SERVICE_B": {"LOGGING": {"LEVEL": 0}}},
            {"SERVICE_A": {"LOGGING": {"LEVEL": 9}}, "LOGGING": {"KEEP": 1}}, {"SERVICE_B": {"LOGGING": {"FMT": ""}}}, {"KINDS": ["x", "y"], "X": 1, "Y": 2}, {"KINDS": ["y"], "Y": 2}, {"L": [7, 8]}, {"A": 1, "DOM": [1, 2]}, {"A": 3, "DOM": [1, 2]}]
     for _ in range(n):
@@ -296,6 +301,8 @@ def check_law(law, expr, o, fresh):
         v = outcome(lambda: e.validate(copy.deepcopy(o)))
         ev = outcome(lambda: fresh()(copy.deepcopy(o)))
         ks = outcome(lambda: fresh().keys(copy.deepcopy(o)))
+        if ev[0] == "err" and not is_missing(ev[1]):
+            return None          # a body that is not total on this input: outside the law's hypothesis (A-total)
         if len({v[0], ev[0], ks[0]}) != 1:
             return f"validate/evaluate/keys disagree: {v[0]}/{ev[0]}/{ks[0]}"
         return None
